@@ -20,6 +20,7 @@ Next ==
      \/ \E d \in {"", "sub"} : \E r \in BOOLEAN : E2KDir(d, r) /\ Rec([act |-> "e2k_dir", p |-> <<d, "", "">>, out |-> FALSE, rec |-> r])
      \/ \E p \in DumpTargets : Dump(p) /\ Rec([act |-> "dump", p |-> p, out |-> FALSE, rec |-> FALSE])
      \/ DumpOpts(P("sub", "f", "txt")) /\ Rec([act |-> "dump_opts", p |-> P("sub", "f", "txt"), out |-> FALSE, rec |-> FALSE])
+     \/ Redump(P("new/deep", "f", "krn")) /\ Rec([act |-> "redump", p |-> P("new/deep", "f", "krn"), out |-> FALSE, rec |-> FALSE])
      \/ \E p \in {P("sub", "f", "txt"), P("", "x", "txt")} : DumpEmpty(p) /\ Rec([act |-> "dump_empty", p |-> p, out |-> FALSE, rec |-> FALSE])
 Spec == Init /\ [][Next]_<<fs, last, hist>>
 \* after a directory run every convertible file in scope has its converted twin (errors do not stop the run)
